@@ -14,6 +14,8 @@
    PDU), all tables (duplicate-free: the invariant C03_tables_stay_sets), all sockets and all environment
    scripts.  Numbers are unbounded Z; PDUs are arbitrary byte lists.                                      *)
 From Coq Require Import Permutation.
+From RtrV Require Base.Mem Base.MemW Gen.GeneratedStore Rtr.FsmTie Rtr.StoreTie.
+From Coq Require Import ZArith.
 From RtrV Require Import Base.CSem Gen.Generated Rtr.RtrModel Rtr.SyncSets Rtr.SyncFrame Rtr.SyncProofs
      Rtr.SyncTheorems Rtr.SyncExamples.
 Local Open Scope Z_scope.
@@ -175,6 +177,52 @@ Proof. exact ex_reset_reload. Qed.
 Theorem C03_example_hypotheses : NoDup (pfx w0) /\ NoDup (keys w0).
 Proof. exact w0_nodup. Qed.
 
+(* Tie (a) for what happens to ONE stored PDU.  rtr_prefix_pdu_2_pfx_record, rtr_key_pdu_2_spki_record, rtr_update_pfx_table,
+   rtr_update_spki_table and the two rtr_undo_update_* are translated from /repo on every run (tools/c2v_store.py ->
+   Gen/GeneratedStore.v: the stored PDU - host byte order, FooterTie's footer_host (header_host p) - and the record being built as
+   memory objects, pfx_table_add / _remove, spki_table_add_entry / _remove_entry, the error-report builder and the state change as
+   external calls).  Rtr/StoreTie.v, for every world and every prefix / router-key PDU of its size with byte-valued content:
+     the record the C builds is the model's prec_of_pdu / krec_of_pdu (family, address bits, lengths, AS, SKI, SPKI, source);
+     flags 1 -> add, 0 -> remove, anything else -> Corrupt Data echoing the whole PDU; duplicate -> Duplicate Announcement +
+     ERROR_FATAL; unknown -> Withdrawal of Unknown Record + ERROR_FATAL: result, tables, callbacks, report and socket are the
+     model's one-PDU operation (update_pfx_one = the model's upd + report_update_failure: update_pfx_one_model);
+     the undo of an applied PDU is the table operation with the flag inverted.
+   The PFX_ERROR / SPKI_ERROR branch has no counterpart (the model's tables do not fail: C18's business) and is unreachable under the
+   interpretation.  NOT proved here: that the loops of rtr_sync_receive_and_store_pdus fold these one-PDU operations the way the
+   model's receive_and_store does (tied by trace equality). *)
+Theorem C03_prefix_record_translated : forall p, Forall Base.Mem.byte_ok p -> Rtr.StoreTie.is_prefix_pdu p ->
+  exists r, Gen.GeneratedStore.rtr_prefix_pdu_2_pfx_record_gen (Rtr.StoreTie.stored p) (Base.MemW.zeros Gen.GeneratedStore.sizeof_pfx_record)
+              Rtr.StoreTie.this_socket (Some 0%Z) (Some 0%Z) (nthb p 1) = Some r /\
+            List.length r = Z.to_nat Gen.GeneratedStore.sizeof_pfx_record /\ Rtr.StoreTie.rec_prec r = prec_of_pdu p.
+Proof. exact Rtr.StoreTie.pfx_record_tie. Qed.
+
+Theorem C03_update_pfx_translated : forall live h p T w, Forall Base.Mem.byte_ok p -> Rtr.StoreTie.is_prefix_pdu p ->
+  Rtr.StoreTie.interpS live (Gen.GeneratedStore.rtr_update_pfx_table_gen h (Rtr.StoreTie.stored p) (Some 0%Z) Rtr.StoreTie.this_socket
+                               (Rtr.FsmTie.sock_store (sk w))) T w =
+  Some (Rtr.StoreTie.as_effS (Rtr.StoreTie.update_pfx_one live p T) w).
+Proof. exact Rtr.StoreTie.update_pfx_tie. Qed.
+
+Theorem C03_update_spki_translated : forall live h p T w, Forall Base.Mem.byte_ok p -> Rtr.StoreTie.is_key p ->
+  Rtr.StoreTie.interpS live (Gen.GeneratedStore.rtr_update_spki_table_gen h (Rtr.StoreTie.stored p) (Some 0%Z) Rtr.StoreTie.this_socket
+                               (Rtr.FsmTie.sock_store (sk w))) T w =
+  Some (Rtr.StoreTie.as_effS (Rtr.StoreTie.update_key_one live p T) w).
+Proof. exact Rtr.StoreTie.update_spki_tie. Qed.
+
+Theorem C03_undo_pfx_translated : forall live h p T w, Forall Base.Mem.byte_ok p -> Rtr.StoreTie.is_prefix_pdu p ->
+  Rtr.StoreTie.interpS live (Gen.GeneratedStore.rtr_undo_update_pfx_table_gen h (Rtr.StoreTie.stored p) (Some 0%Z) Rtr.StoreTie.this_socket
+                               (Rtr.FsmTie.sock_store (sk w))) T w =
+  Some (Rtr.StoreTie.as_effS (Rtr.StoreTie.undo_pfx_one live p T) w).
+Proof. exact Rtr.StoreTie.undo_pfx_tie. Qed.
+
+Theorem C03_undo_spki_translated : forall live h p T w, Forall Base.Mem.byte_ok p -> Rtr.StoreTie.is_key p ->
+  Rtr.StoreTie.interpS live (Gen.GeneratedStore.rtr_undo_update_spki_table_gen h (Rtr.StoreTie.stored p) (Some 0%Z) Rtr.StoreTie.this_socket
+                               (Rtr.FsmTie.sock_store (sk w))) T w =
+  Some (Rtr.StoreTie.as_effS (Rtr.StoreTie.undo_key_one live p T) w).
+Proof. exact Rtr.StoreTie.undo_spki_tie. Qed.
+
+Example C03_store_translator_clean : Gen.GeneratedStore.store_translator_problems = nil.
+Proof. reflexivity. Qed.
+
 Print Assumptions C03_success.
 Print Assumptions C03_success_iff.
 Print Assumptions C03_failure.
@@ -188,3 +236,8 @@ Print Assumptions C03_before_eod.
 Print Assumptions C03_resetting_cleared.
 Print Assumptions C03_sync.
 Print Assumptions C03_tables_stay_sets.
+Print Assumptions C03_prefix_record_translated.
+Print Assumptions C03_update_pfx_translated.
+Print Assumptions C03_update_spki_translated.
+Print Assumptions C03_undo_pfx_translated.
+Print Assumptions C03_undo_spki_translated.
